@@ -1,19 +1,19 @@
 import FsutilModel.DiffMain2
 namespace Fsm.D
 
-variable {P : Type} [DecidableEq P]
+variable {P : Type} [DecidableEq P] {I : Type} [DecidableEq I]
 
 /-- a valid listing: strictly ascending, every ancestor present as a directory -/
-structure Valid (O : PathOrd P) (xs : List (Ent P)) : Prop where
+structure Valid (O : PathOrd P) (xs : List (Ent P I)) : Prop where
   sorted : Sorted O xs
   closed : ∀ x ∈ xs, ∀ p, O.under p x.path = true → ∃ d ∈ xs, d.path = p ∧ d.isDir = true
 
-theorem toMap_cons (x : Ent P) (xs : List (Ent P)) (q : P) :
+theorem toMap_cons (x : Ent P I) (xs : List (Ent P I)) (q : P) :
     toMap (x :: xs) q = if x.path = q then some x else toMap xs q := by
   simp only [toMap, List.find?_cons]
   by_cases h : x.path = q <;> simp [h]
 
-theorem toMap_none {xs : List (Ent P)} {q : P} (h : ∀ x ∈ xs, x.path ≠ q) : toMap xs q = none := by
+theorem toMap_none {xs : List (Ent P I)} {q : P} (h : ∀ x ∈ xs, x.path ≠ q) : toMap xs q = none := by
   induction xs with
   | nil => rfl
   | cons x xs ih =>
@@ -22,7 +22,7 @@ theorem toMap_none {xs : List (Ent P)} {q : P} (h : ∀ x ∈ xs, x.path ≠ q) 
     simp [this]
     exact ih (fun y hy => h y (by simp [hy]))
 
-theorem toMap_some_mem {xs : List (Ent P)} {q : P} {e : Ent P} (h : toMap xs q = some e) :
+theorem toMap_some_mem {xs : List (Ent P I)} {q : P} {e : Ent P I} (h : toMap xs q = some e) :
     e ∈ xs ∧ e.path = q := by
   induction xs with
   | nil => simp [toMap] at h
@@ -32,7 +32,7 @@ theorem toMap_some_mem {xs : List (Ent P)} {q : P} {e : Ent P} (h : toMap xs q =
     · simp [hx] at h; subst h; exact ⟨by simp, hx⟩
     · simp [hx] at h; obtain ⟨h1, h2⟩ := ih h; exact ⟨by simp [h1], h2⟩
 
-theorem toMap_mem {O : PathOrd P} {xs : List (Ent P)} (hs : Sorted O xs) {e : Ent P} (he : e ∈ xs) :
+theorem toMap_mem {O : PathOrd P} {xs : List (Ent P I)} (hs : Sorted O xs) {e : Ent P I} (he : e ∈ xs) :
     toMap xs e.path = some e := by
   induction xs with
   | nil => simp at he
@@ -46,7 +46,7 @@ theorem toMap_mem {O : PathOrd P} {xs : List (Ent P)} (hs : Sorted O xs) {e : En
       simp [this]
       exact ih (sorted_tail hs) he
 
-theorem inv_init {O : PathOrd P} {L U : List (Ent P)} (hL : Valid O L) (hU : Valid O U) :
+theorem inv_init {O : PathOrd P} {L U : List (Ent P I)} (hL : Valid O L) (hU : Valid O U) :
     Inv O (toMap U) L U none (toMap L) := by
   refine ⟨?_, ?_, ?_, (by intro d h; cases h), hL.sorted, hU.sorted, ?_, ?_, ?_, ?_⟩
   · intro q hq
@@ -60,13 +60,13 @@ theorem inv_init {O : PathOrd P} {L U : List (Ent P)} (hL : Valid O L) (hU : Val
   · intro x hx p hp; left; exact hL.closed x hx p hp
 
 /-- C01-T1 at tree level: applying the emitted changes to the old listing yields the new one -/
-theorem diff_converges (O : PathOrd P) (L U : List (Ent P)) (hL : Valid O L) (hU : Valid O U) :
-    ∀ q, (diff O (L.length + U.length + 1) L U none).foldl (applyEv O) (toMap L) q = toMap U q :=
-  diff_fold O (toMap U) _ L U none (toMap L) (by omega) (inv_init hL hU)
+theorem diff_converges (O : PathOrd P) (fc : Bool) (L U : List (Ent P I)) (hL : Valid O L) (hU : Valid O U) :
+    ∀ q, (diff O fc (L.length + U.length + 1) L U none).foldl (applyEv O) (toMap L) q = toMap U q :=
+  diff_fold O fc (toMap U) _ L U none (toMap L) (by omega) (inv_init hL hU)
 
 /-- C02-T3: a re-sync of an unchanged tree emits nothing (any sufficient fuel, any rmdir state) -/
-theorem resync_is_silent (O : PathOrd P) : ∀ (L : List (Ent P)) (n : Nat) (rm : Option P),
-    L.length + L.length < n → diff O n L L rm = [] := by
+theorem resync_is_silent (O : PathOrd P) : ∀ (L : List (Ent P I)) (n : Nat) (rm : Option P),
+    L.length + L.length < n → diff O false n L L rm = [] := by
   intro L
   induction L with
   | nil => intro n rm h; cases n with
@@ -78,7 +78,7 @@ theorem resync_is_silent (O : PathOrd P) : ∀ (L : List (Ent P)) (n : Nat) (rm 
     | zero => omega
     | succ n =>
       have hsame : same x x = true := by simp [same]
-      simp only [diff, O.lt_irrefl, hsame, if_true]
+      simp only [diff, O.lt_irrefl, hsame, if_true, Bool.not_false, Bool.true_and]
       simp
       exact ih n _ (by simp at h; omega)
 
